@@ -162,6 +162,12 @@ def run_case(ctx, rng, idx):
         for baseline in (True, False):
             evaluate(ctx, rng, idx, h, 0, force=dict(K=2, no_trunc=True, normalizeU=False, baseline=baseline, max_iter=10, n_realizations=1))
         return
+    if idx % 7 == 4 and idx not in FORCED and mode is None:
+        # many realisations stopped after 20-25 iterations: some have converged, some have not, and their final values lie close
+        # together - the returned value is the LARGEST final value of the table whatever the convergence flags say
+        ctx.event("eight-realisations-with-mixed-convergence")
+        evaluate(ctx, rng, idx, h, 0, force=dict(K=2, no_trunc=rng.random() < 0.5, normalizeU=False, baseline=rng.random() < 0.5, max_iter=rng.choice([20, 25]), n_realizations=8))
+        return
     evaluate(ctx, rng, idx, h, 0)
     if idx not in FORCED and idx % 3 == 0:
         # the same Hypergraph object fitted again after an in-place edit that keeps node and hyperedge counts
@@ -221,7 +227,12 @@ def evaluate(ctx, rng, idx, h, phase, force=None):
     baseline = rng.random() < 0.6
     if force:
         K, normalizeU, baseline, no_trunc = force["K"], force["normalizeU"], force["baseline"], force["no_trunc"]
-        cfg.update(max_iter=force["max_iter"], n_realizations=force["n_realizations"], min_value_par=0.0, max_value_par=1e300)
+        cfg.update(max_iter=force["max_iter"], n_realizations=force["n_realizations"])
+        if no_trunc:
+            cfg.update(min_value_par=0.0, max_value_par=1e300)
+        else:
+            cfg.pop("min_value_par", None)
+            cfg.pop("max_value_par", None)
     if idx in FORCED:
         import hypergraphx as hgx
 
@@ -325,6 +336,20 @@ def evaluate(ctx, rng, idx, h, phase, force=None):
         out = quiet(m.fit, h, K=K, seed=seed, normalizeU=normalizeU, baseline_r0=baseline)
         return m, out
 
+    neighbour_fit = False
+    if baseline and iso and idx not in FORCED and not isinstance(nodes[0], str) and all(isinstance(n, int) for n in nodes):
+        # right before: the same fit on a hypergraph with the SAME hyperedges (same order), K and seed whose isolated node carries
+        # another label, sorting to the other end (so every row of the membership matrix belongs to another node)
+        import hypergraphx as hgx
+
+        x = nodes[iso[0]]
+        y = (min(nodes) - 17) if iso[0] > 0 else (max(nodes) + 17)
+        ha = hgx.Hypergraph(edges, weighted=h.is_weighted(), weights=list(weights) if h.is_weighted() else None)
+        ha.add_nodes([n for n in nodes if n != x] + [y])
+        with np.errstate(all="ignore"):
+            call(quiet, mt.HypergraphMT(**cfg).fit, ha, K=K, seed=seed, normalizeU=normalizeU, baseline_r0=baseline)
+        neighbour_fit = True
+        ctx.event("fit-of-a-hypergraph-differing-only-in-an-isolated-label-ran-right-before")
     hooked = o_init is not None and o_em is not None
     if hooked:
         mt.HypergraphMT._initialize_psiOmega, mt.HypergraphMT._update_em = init_wrapped, em_wrapped
@@ -442,6 +467,13 @@ def evaluate(ctx, rng, idx, h, phase, force=None):
             else:
                 ctx.check("C17:mt-definition", False, "C17:MT:maxL-differs-from-loglikelihood-by-definition", lambda: wit((maxL, ref, trace["psi_bad"])))
     # ---- reproducibility ----------------------------------------------------------------------------
+    if neighbour_fit:
+        # ... and an unrelated fit in between the two equal ones
+        import hypergraphx as hgx
+
+        hc = hgx.Hypergraph([tuple(nodes[:2]), tuple(nodes[1:3]) if len(nodes) >= 3 else tuple(nodes[:2])])
+        with np.errstate(all="ignore"):
+            call(quiet, mt.HypergraphMT(**cfg).fit, hc, K=2, seed=seed + 1, normalizeU=False, baseline_r0=True)
     with np.errstate(all="ignore"):
         r2 = call(fit)
     if isinstance(r2, _Raised):
